@@ -100,7 +100,7 @@ def encoding_provn_value(value):
     elif isinstance(value, datetime.datetime):
         return '"{0}" %% xsd:dateTime'.format(value.isoformat())
     elif isinstance(value, float):
-        return '"%g" %%%% xsd:float' % value
+        return '"%r" %%%% xsd:double' % value
     elif isinstance(value, bool):
         return '"%i" %%%% xsd:boolean' % value
     else:
